@@ -6,7 +6,7 @@ def install(reg):
     reg.cls("Location", {"line": "int", "column": "int"})
     reg.cls("Measurement", {"unit_name": "str", "start": "Location", "end": "Location", "value": "int"})
     reg.cls("ReportUnit", {"file": "str", "measurement": "Measurement"})
-    reg.cls("Token", {"location": "Location", "token_type": "any", "value": "str"})
+    reg.cls("Token", {"location": "Location", "token_type": "ext:TokType", "value": "str"})
     reg.cls("TokenRange", {"start": "int", "end": "int"})
     reg.cls("Header", {"name_token": "Token", "token_range": "TokenRange"})
     reg.cls("Scope", {"header": "Header", "block": "TokenRange", "children": "list[Scope]"})
